@@ -125,7 +125,14 @@ func c17World(tb testing.TB) *kit.World {
 // TestC17 (built with -race): N clients run their programs concurrently against one
 // server while raw peers and a caching client monitor everything. The order of the log
 // rows in a monitor's stream must be a serial order that explains every result.
-func TestC17(t *testing.T) {
+func TestC17(t *testing.T) { c17Test(t, false) }
+
+// TestC17Aged: the same on a server instance that has already committed more than 66000
+// row changes (more than any bounded internal buffer holds: the cache behind the database
+// has an event buffer of 65536 entries that nobody drains on the server side).
+func TestC17Aged(t *testing.T) { c17Test(t, true) }
+
+func c17Test(t *testing.T, aged bool) {
 	w := c17World(t)
 	s := w.S
 	rapid.Check(t, func(t *rapid.T) {
@@ -156,6 +163,26 @@ func TestC17(t *testing.T) {
 		}
 		if res, err := kit.TransactOps(bg, w, setup, initOps); err != nil || len(res) != len(initOps) {
 			t.Fatalf("init: %v %v", res, err)
+		}
+		if aged {
+			ager, err := kit.DialRaw(srv.Sock)
+			if err != nil {
+				t.Fatal(err)
+			}
+			for round := 0; round < 3; round++ {
+				var ins []json.RawMessage
+				for i := 0; i < 11000; i++ {
+					ins = append(ins, json.RawMessage(fmt.Sprintf(`{"op":"insert","table":"Log","row":{"tag":"aging-%d-%d","client":-1}}`, round, i)))
+				}
+				if reply, err := ager.Transact(s.Name, ins); err != nil || strings.Contains(string(reply), `"error"`) {
+					t.Fatalf("harness: aging insert: %.200s %v", reply, err)
+				}
+				if reply, err := ager.Transact(s.Name, []json.RawMessage{json.RawMessage(`{"op":"delete","table":"Log","where":[["client","==",-1]]}`)}); err != nil || strings.Contains(string(reply), `"error"`) {
+					t.Fatalf("harness: aging delete: %.200s %v", reply, err)
+				}
+			}
+			ager.Close()
+			kit.Label("C17", "server-aged-by-66000-row-changes")
 		}
 		// some children belong to both parents from the start (second transaction: p2 becomes
 		// their second referrer)
